@@ -942,11 +942,11 @@ def shrink(c):
 def extra_checks(ctx):
     # the (bytes-so-far, chunk) transition classes and the bounded-cut compositions are complete enumerations
     ctx["stats"]["exhaustive"] = True
-    ctx["stats"]["extra"] = {
+    ctx["stats"].setdefault("extra", {}).update({
         "exhaustive_scopes": "every (so-far, chunk) transition of the 24-byte header loop and of an 8-byte payload loop; "
                              "all compositions of payloads <= %d bytes; all cuttings with <= %d cut points of 1..3 "
                              "back-to-back messages; every single-bit flip of a 32-byte message%s; EOF at every offset"
-                             % ((10, 3, "") if ctx["tier"] == "thorough" else (6, 2, " (header fully, command/payload every 3rd bit)"))}
+                             % ((10, 3, "") if ctx["tier"] == "thorough" else (6, 2, " (header fully, command/payload every 3rd bit)"))})
     return []
 
 
